@@ -215,6 +215,11 @@ def solve(job):
     else:
         a = rng.uniform(0.5, 1.5, size=(n, n)) * float(lam_val)
         lam = (a + a.T) / 2
+    layout = prng.choice(["C", "C", "F", "T"])
+    if layout == "F":
+        S = np.asfortranarray(S)                 # column-major (what LAPACK overwrites in place when allowed to)
+    elif layout == "T":
+        S = np.ascontiguousarray(S.T).T          # a transposed view of a row-major matrix
     if prng.random() < 0.3:
         S.setflags(write=False)
         if isinstance(lam, np.ndarray):
